@@ -38,7 +38,7 @@ def upd (f : K → Hist V) (k : K) (h : Hist V) : K → Hist V :=
 def step (s : TSpec K V) : TOp K V → TSpec K V
   | .set b k v => { s with cur := upd s.cur k (logWrite (s.cur k) b (some v)), top := b, maxEver := max s.maxEver b }
   | .unset b k => { s with cur := upd s.cur k (logWrite (s.cur k) b none), top := b, maxEver := max s.maxEver b }
-  | .commit b => { s with dur := s.cur, maxEver := max s.maxEver b }
+  | .commit b => { s with dur := s.cur, maxEver := max s.maxEver (b - 1) }
   | .clear => { s with cur := s.dur }
   | .reorg n =>
     let f := fun k => (s.cur k).filter (fun e => decide (e.1 ≤ n))
